@@ -6,7 +6,7 @@ use crate::pix::*;
 use fast_image_resize as fir;
 use fir::images::*;
 use fir::pixels::U16;
-use fir::{ImageView, ImageViewMut, IntoImageView, PixelType, ResizeOptions, Resizer};
+use fir::{ImageView, ImageViewMut, IntoImageView, IntoImageViewMut, PixelType, ResizeOptions, Resizer};
 use serde_json::{json, Map, Value};
 use std::num::NonZeroU32;
 use std::panic::{catch_unwind, AssertUnwindSafe};
@@ -850,4 +850,109 @@ pub fn rows(case: &Value, out: &mut Map<String, Value>) {
             out.insert("ret".into(), json!(format!("panic:{}", m)));
         }
     }
+}
+
+// ---------------------------------------------------------------- Api: container life cycle, typed access, Filter::new
+
+const ALL_TYPES: [PixelType; 13] = [
+    PixelType::U8, PixelType::U8x2, PixelType::U8x3, PixelType::U8x4, PixelType::U16, PixelType::U16x2, PixelType::U16x3,
+    PixelType::U16x4, PixelType::I32, PixelType::F32, PixelType::F32x2, PixelType::F32x3, PixelType::F32x4,
+];
+
+fn typed_access(img: &mut Image) -> (Vec<Value>, Vec<Value>) {
+    let (w, h) = (img.width(), img.height());
+    let mut ro = Vec::new();
+    let mut rw = Vec::new();
+    for t in ALL_TYPES {
+        crate::exec::with_pt!(t, P, {
+            // 1 = a view of exactly the image's size, 0 = None, 2 = a view of another size
+            let a = match img.image_view::<P>() {
+                Some(v) => if v.width() == w && v.height() == h { 1 } else { 2 },
+                None => 0,
+            };
+            let b = match img.image_view_mut::<P>() {
+                Some(v) => if v.width() == w && v.height() == h { 1 } else { 2 },
+                None => 0,
+            };
+            ro.push(json!(a));
+            rw.push(json!(b));
+        })
+    }
+    (ro, rw)
+}
+
+/// `Image::new` / buffer / copy / into_vec / typed access of an owned and of a borrowed image.
+pub fn container(case: &Value, out: &mut Map<String, Value>) {
+    let pt = pt_parse(case["pt"].as_str().unwrap());
+    let w = u32_of(&case["w"]);
+    let h = u32_of(&case["h"]);
+    let seed = case.get("seed").and_then(|s| s.as_u64()).unwrap_or(1) as usize;
+    let res = catch_unwind(AssertUnwindSafe(|| {
+        let mut o = Map::new();
+        let mut img = Image::new(w, h, pt);
+        o.insert("len".into(), json!(img.buffer().len()));
+        o.insert("zero".into(), json!(img.buffer().iter().all(|&b| b == 0) as u8));
+        o.insert("dims".into(), json!([img.width(), img.height()]));
+        o.insert("ptname".into(), json!(format!("{:?}", img.pixel_type())));
+        let pattern: Vec<u8> = (0..img.buffer().len()).map(|i| ((i * 7 + seed) % 251) as u8).collect();
+        img.buffer_mut().copy_from_slice(&pattern);
+        let mut cp = img.copy();
+        o.insert("copy_eq".into(), json!((cp.buffer() == img.buffer() && cp.width() == w && cp.height() == h && cp.pixel_type() == pt) as u8));
+        if !pattern.is_empty() {
+            cp.buffer_mut()[0] ^= 0xff;
+        }
+        o.insert("indep".into(), json!((img.buffer() == pattern.as_slice()) as u8));
+        let (ro, rw) = typed_access(&mut img);
+        o.insert("typed".into(), json!(ro));
+        o.insert("typed_mut".into(), json!(rw));
+        // a borrowed image over the same bytes answers the same
+        let mut backing = crate::buf::Buf::heap(pattern.len(), 0);
+        backing.as_mut_slice().copy_from_slice(&pattern);
+        match Image::from_slice_u8(w, h, backing.as_mut_slice(), pt) {
+            Ok(mut b) => {
+                let (ro, rw) = typed_access(&mut b);
+                o.insert("btyped".into(), json!(ro));
+                o.insert("btyped_mut".into(), json!(rw));
+                o.insert("bvec_eq".into(), json!((b.into_vec() == pattern) as u8));
+            }
+            Err(e) => {
+                o.insert("bret".into(), json!(format!("err:{:?}", e)));
+            }
+        }
+        o.insert("vec_eq".into(), json!((img.into_vec() == pattern) as u8));
+        o.insert("ret".into(), json!("ok"));
+        o
+    }));
+    match res {
+        Ok(o) => out.extend(o),
+        Err(e) => {
+            out.insert("ret".into(), json!(format!("panic:{}", panic_msg(e))));
+        }
+    }
+}
+
+fn unit_kernel(_: f64) -> f64 {
+    1.0
+}
+
+/// `Filter::new` with supports of every class.
+pub fn filter_new(case: &Value, out: &mut Map<String, Value>) {
+    let support = parse_f64(&case["support"]);
+    let res = catch_unwind(AssertUnwindSafe(|| match fir::Filter::new("verif", unit_kernel, support) {
+        Ok(f) => {
+            if f.support() == support && f.name() == "verif" {
+                "ok".to_string()
+            } else {
+                "ok-but-changed".to_string()
+            }
+        }
+        Err(e) => format!("err:{:?}", e),
+    }));
+    out.insert(
+        "ret".into(),
+        json!(match res {
+            Ok(s) => s,
+            Err(e) => format!("panic:{}", panic_msg(e)),
+        }),
+    );
 }
